@@ -27,7 +27,7 @@ func init() {
 	planTable["C10"] = mk("access", "a token reset was delivered, or at least two token events were")
 	planTable["C12"] = mk("reset,throttle", "at least one get request was identified with certainty as a system-reset re-fetch and checked against the delivered resets")
 	planTable["C13"] = mk("query", "at least one query event was delivered while a settled direct subscriber held a cached query variant, so that a query request for it was demanded")
-	planTable["C15"] = mk("core,locks,http", "the run delivered at least one service message to the gateway")
+	planTable["C15"] = mk("hostile,hostile,core,locks,http,query", "the run delivered at least one service message to the gateway")
 	planTable["C19"] = mk("throttle", "the number of outstanding governed requests reached the configured limit at least once (reset throttle after a reset at a quiet moment, or reference throttle after a lone subscribe)")
 	planTable["C14"] = mk("http,http,core", "at least one client input that is not a valid request (hostile HTTP path or WebSocket method string) was judged by C14.c; the seam invariant C14.a/b is evaluated on every subject of every run")
 	planTable["C16"] = mk("http", "at least one successful GET/HEAD body was compared with the reference renderer, or one POST answer with the service's result")
